@@ -94,6 +94,14 @@ def run_conf(ctx, exe=None):
             inl = doc.replace(line, inc) if len(line) < 4096 else None
             # lines too long for the path buffer are refused (NULL): nothing to inline, the model is given the refusal's equivalent
             ops.append('inif 61 ' + hx(doc) + ('\tinif 61 ' + hx(inl) if inl is not None else '\tnullres'))
+    # the directive text also occurs earlier in the file where it is NOT a directive (in a comment, in a value): the replacement is
+    # global, so those copies are rewritten too and the text in front of the directive changes length (short include file: it shrinks)
+    for pad in (0, 3, 40, 400):
+        line = b'@INCLUDE qvinc.conf' + b' ' * pad
+        for doc in (b'# ' + line + b'\n' + line + b'\nz=9\n',
+                    b'v=see ' + line + b'\n# x ' + line + b'\n' + line + b'\n' + line + b'\nlast=1',
+                    b'a=1\n;' + line + b'\n' + line):
+            ops.append('inif 61 ' + hx(doc) + '\tinif 61 ' + hx(doc.replace(line, inc)))
     # a file that includes itself (directly, or in a cycle of length one through the included file): must end with a refusal
     ops.append('incfile ' + hx(b'x=1\n@INCLUDE qvinc.conf\n'))
     ops.append('inif 61 ' + hx(b'a=0\n@INCLUDE qvinc.conf\nb=2\n') + '\tnullres')
